@@ -10,6 +10,9 @@
     emit <keyhex> <T> <varTypeHex> <0|1> emitValue of that member (T = type_of outcome, printed type name, type_is(str)) → text <hex> | error
     unesc <bodyhex>                    decodeEsc of a string-literal body (octal, \\xhh and one-character escapes) → hex
     joins <lhex> <rhex>                joinsEscape of two bodies                                               → true | false
+    cppread <bodyhex>                  cppBytes: the bytes of the C++ narrow string literal "body" (Model/CppLiteral.lean)   → none | bytes <hex of the bytes, - if none>
+    cppsafe <bodyhex>                  cppSafe: the body is read alike by CPython and C++ (guard of C17.cpp_reads_python)    → true | false
+    pyutf8 <bodyhex>                   utf8s (decodeEsc body): the UTF-8 bytes of what CPython reads                       → bytes <hex>
     py <mode> <keyhex>                 evalPy (mode = py | strict) of that member with the members before it bound → value | error
 
   values:  int <decimal> | float <float.hex from the oracle> | str <hex of the string>
@@ -25,6 +28,7 @@
 import Tranp.Driver.Common
 import Tranp.Model.Evaluator
 import Tranp.Model.EmitValue
+import Tranp.Model.CppLiteral
 
 namespace Tranp.Driver.Eval
 open Tranp Tranp.Evaluator Tranp.Driver
@@ -220,6 +224,10 @@ where
     | [], _ => none
     | (k, e) :: rest, i => if k = key then some (i, e) else go rest (i + 1)
 
+/-- bytes as lowercase hex (`-` for none) -/
+def showBytes (bs : List Nat) : String :=
+  if bs.isEmpty then "-" else String.ofList (bs.flatMap fun b => [Str.hexDigit (b / 16 % 16), Str.hexDigit (b % 16)])
+
 def step (st : St) : List String → St × String
   | ["env", known, members] =>
     let ks := if known == "" then [] else (known.splitOn ",").map unhexD
@@ -256,6 +264,12 @@ def step (st : St) : List String → St × String
     | none => (st, "bad-op")
   | ["unesc", body] => (st, Str.hex (decodeEsc (unhexD body)))
   | ["joins", l, r] => (st, toString (joinsEscape (unhexD l) (unhexD r)))
+  | ["cppread", body] =>
+    match cppBytes (unhexD body) with
+    | some bs => (st, "bytes " ++ showBytes bs)
+    | none => (st, "none")
+  | ["cppsafe", body] => (st, toString (cppSafe (unhexD body)))
+  | ["pyutf8", body] => (st, "bytes " ++ showBytes (utf8s (decodeEsc (unhexD body))))
   | _ => (st, "bad-op")
 
 def run : IO Unit := runFamily step ({} : St)
